@@ -33,8 +33,9 @@ class Layout:
 class Contract:
     def __init__(self, qual, file, path, self_cls=None, params=None, requires=None, ensures=None, raises=None,
                  on_raise=None, modifies=None, modifies_args=None, result=None, invariants=None, locals=None,
-                 aliases=None, tags=None, properties=None, assumed=False, pure=False, note="", may_raise=None, fixed=None):
+                 aliases=None, tags=None, properties=None, assumed=False, pure=False, note="", may_raise=None, fixed=None, options=None):
         self.qual, self.file, self.path, self.self_cls = qual, file, path, self_cls
+        self.options = set(options or ())    # "sorted_positional": sorted(<set / dict>) is the positional canonical listing of the set
         self.params = dict(params or {})
         self.param_names = list(self.params)
         self.requires = dict(requires or {})
@@ -95,8 +96,9 @@ class Registry:
 
 
 class Cx:
-    def __init__(self, old_env=None, result=None, pre_env=None):
+    def __init__(self, old_env=None, result=None, pre_env=None, locals_env=None):
         self.old_env, self.result, self.pre_env = old_env, result, pre_env
+        self.locals_env = locals_env      # the function's local variables at a normal exit (for callable postconditions only)
 
 
 class Engine(ExprMixin, CallMixin, StmtMixin):
@@ -298,6 +300,9 @@ class Engine(ExprMixin, CallMixin, StmtMixin):
             return T.sv_bool(TH.pmem(s.t, j.t, n.t))
         if fn == "real":
             return T.sv_real(T.to_real(self.unopt(self.ev(e.args[0], p), p, "spec")))
+        if fn in ("is_pinf", "is_ninf"):     # is_pinf(x): the extended integer x is +infinity (math.inf)
+            v = self.coerce(self.ev(e.args[0], p), T.XINT)
+            return T.sv_bool(T.XIntS.is_pinf(v.t) if fn == "is_pinf" else T.XIntS.is_ninf(v.t))
         if fn == "mset":
             m, f, v = (self.ev(a, p) for a in e.args)
             return T.scalar(T.META, TH.mset(m.t, f.t, v.t))
@@ -689,7 +694,7 @@ class Engine(ExprMixin, CallMixin, StmtMixin):
             except Unsupported:
                 if not (isinstance(rty, T.Obj) and isinstance(res.ty, T.Obj) and res.ty.cls == rty.cls):
                     raise Unsupported(f"{c.qual} returns {res.ty}, contract declares {rty}")
-        cx = Cx(old_env=self.entry_env, result=res if c.result is not None else None)
+        cx = Cx(old_env=self.entry_env, result=res if c.result is not None else None, locals_env=dict(q.env))
         for name, g in self.eval_clauses(c.ensures, env, q, cx).items():
             base = name.split(".")[0] if name not in c.tags else name
             tag = c.tags.get(name) or c.tags.get(base) or self.layout_tag(c, name)
@@ -739,8 +744,9 @@ class Engine(ExprMixin, CallMixin, StmtMixin):
         if exc not in c.raises and exc not in c.may_raise:
             self.oblige(f"raises:{exc}", "undeclared", q, z3.BoolVal(False))
             return
-        cl = c.raises.get(exc, c.may_raise.get(exc))
-        cond = z3.And(list(self.spec_eval(cl, self.entry_env, q, cx0).values()))
+        # `raises` (must raise, iff on the normal exit) and `may_raise` (allowed) of the same exception: either licenses the raise
+        conds = [z3.And(list(self.spec_eval(d[exc], self.entry_env, q, cx0).values())) for d in (c.raises, c.may_raise) if exc in d]
+        cond = z3.Or(conds) if len(conds) > 1 else conds[0]
         self.oblige(f"raises:{exc}", "only-when", q, cond)
         env = self.exit_env(q)
         if c.on_raise is None:
